@@ -931,8 +931,6 @@ def model_quantize(model,
       if not isinstance(quantizer, dict) or quantizer.get(q_name, None):
         # Only change activation layer if we will use a quantized activation.
 
-        layer["class_name"] = "QActivation"
-
         # Remove relu specific configurations
         # remember that quantized relu's are always upper bounded.
 
@@ -946,6 +944,8 @@ def model_quantize(model,
           del layer["config"]["max_value"]
           del layer["config"]["negative_slope"]
           del layer["config"]["threshold"]
+
+        layer["class_name"] = "QActivation"
 
         if isinstance(quantizer, dict):
           quantizer = quantizer[q_name]
